@@ -4,6 +4,8 @@ scalar / array / misc argument kind) and of the lattice of admissible calls.  Re
 import inspect
 import itertools
 
+from fractions import Fraction
+
 import numpy as np
 
 from . import shim, tla
@@ -190,7 +192,9 @@ def alg_samples():
 def misc_samples():
     return {"array2d": np.eye(2), "pyint": 2, "pyfloat": 2.5, "pycomplex": 1 + 2j, "npf32": np.float32(2.),
             "np0d": np.array(2.), "npc64": np.complex64(1j), "k": 1, "which": "LM", "callable": np.exp,
-            "alpha": 0.5, "alpha_int": 2}
+            "alpha": 0.5, "alpha_int": 2,
+            # exponents as they come out of NumPy code / exact arithmetic (all are numbers.Number)
+            "alpha_npf32": np.float32(0.5), "alpha_npi64": np.int64(2), "alpha_frac": Fraction(1, 2)}
 
 
 # documented algorithm classes per entry point (docstrings of the public functions)
@@ -277,6 +281,9 @@ class Lattice:
             for fn in ("exp", "log", "sqrt", "isqrt"):
                 call(fn, a)
             call("pow", a, "x:alpha")
+            for ex in ("alpha_npf32", "alpha_npi64", "alpha_frac"):
+                call("pow", a, "x:" + ex)
+                call("pow", a, "x:" + ex, "alg:Auto")
             for alg in ADMITS["eig"]:
                 call("eig", a, "x:k", "x:which", "alg:" + alg)
             for alg in ADMITS["svd"]:
